@@ -715,7 +715,10 @@ def _expected(form, tbl, policy, errorvalue, selected):
             if fail is NOFAIL:
                 out.extend(rows)
             elif policy is True:
-                return {'rows': out + rows, 'raises': [fail], 'optional': len(rows)}
+                # the rows the generator produced for this source row before it failed were produced before the
+                # failure: they are delivered, then the exception surfaces ("after every earlier row has been
+                # delivered")
+                return {'rows': out + rows, 'raises': [fail], 'optional': 0}
             elif policy == 'inline':
                 out.extend(rows)
                 out.append(((EXC, fail),))
